@@ -8,6 +8,7 @@ use crate::common::*;
 use simple_sds::bit_vector::BitVector;
 use simple_sds::int_vector::{IntVector, IntVectorMapper};
 use simple_sds::ops::*;
+use simple_sds::raw_vector::{PopRaw, PushRaw, RawVector};
 use simple_sds::rl_vector::{RLBuilder, RLVector};
 use simple_sds::serialize::{MappingMode, MemoryMap, MemoryMapped, Serialize};
 use simple_sds::sparse_vector::{SparseBuilder, SparseVector};
@@ -642,7 +643,32 @@ fn pick_arg(rng: &mut Rng, n: usize) -> usize {
 }
 
 fn plain_bitvector(em: &mut Emit, rng: &mut Rng, bits: &[bool], exhaustive: bool, nentries: usize) {
-    let mut bv: BitVector = bits.iter().cloned().collect();
+    // built from a bool iterator, or from a raw vector with a history (a few more set bits, resized down with filler
+    // false; an integer of all ones pushed and popped again)
+    let mut bv: BitVector = match bits.len() % 3 {
+        0 => bits.iter().cloned().collect(),
+        1 => {
+            let mut raw = RawVector::new();
+            for b in bits.iter() {
+                raw.push_bit(*b);
+            }
+            for _ in 0..(1 + bits.len() % 7) {
+                raw.push_bit(true);
+            }
+            raw.resize(bits.len(), false);
+            BitVector::from(raw)
+        }
+        _ => {
+            let mut raw = RawVector::new();
+            for b in bits.iter() {
+                raw.push_bit(*b);
+            }
+            let w = [40usize, 13, 64, 7][bits.len() % 4];
+            unsafe { raw.push_int(u64::MAX, w); }
+            let _ = unsafe { raw.pop_int(w) };
+            BitVector::from(raw)
+        }
+    };
     bv.enable_rank();
     bv.enable_select();
     bv.enable_select_zero();
